@@ -24,5 +24,5 @@ package bigint
 //@ assumed
 //@ pure
 //@ requires[nonnil] data != nil
-//@ ensures result != nil && result.v == le2c(data)
+//@ ensures result != nil && fresh(result) && result.v == le2c(data) && (len(data) == 0 ==> le2c(data) == 0)
 //@ ensures[range] len(data) <= 32 ==> -big.two255() <= le2c(data) && le2c(data) < big.two255()   // a two's-complement number of n bytes lies in [-2^(8n-1), 2^(8n-1))
